@@ -309,7 +309,7 @@ func c05Notes(rec *evid.Rec) {
 func TestC05_Verify(t *testing.T) {
 	rec := evid.For("C05")
 	c05Notes(rec)
-	pbt.Check(t, rec, "verify", evid.Pick(20000, 300000), func(rt *rapid.T) (any, error) {
+	pbt.Check(t, rec, "verify", evid.Pick(40000, 300000), func(rt *rapid.T) (any, error) {
 		c, near := genC05Verify(rt)
 		rec.Case("verify:"+c.Variant, evid.NewH().Str(c.Raw).Sum(), near, func() any { return c })
 
